@@ -1,5 +1,340 @@
-"""C20 - MockDisplay is a faithful test oracle  (metadata; generators live here and/or in props/C20_*.py parts)"""
-CLAIMED = False   # set True by the owner once ./check C20 passes with real theorems
+"""C20 - MockDisplay is a faithful test oracle.
+
+Protocol (one case per line; tokens contain no blanks):
+  mock_hist <type> <tok>...            history on a new display; probes print, a panic ends the line with `PANIC <kind>`
+  mock_eqdiff <type> <tok>... / <tok>...   two histories, then `EQ b DIFF [map] DEQ b`
+  mock_pattern <type> r<row>...        from_pattern(rows) ('_' stands for ' '): `MAP [..] AA rect DBG text` or `PANIC kind`
+  p_mock_hist / p_mock_eq / p_mock_pattern: the same inputs judged on the implementation alone against an independent map.
+tokens: dp:x:y:c  di:x:y:c;x:y:c;..  fs:x:y:w:h:c  fc:x:y:w:h:c,c,..  cl:c  sp:x:y:(c|n)  ao:b  ab:b      (operations)
+        gp:x:y  aa  dump  sw  dbg  mp:k (dump of map(raw -> (raw + k) mod #values))                      (probes)
+  mock_points <type> <c> x:y...        from_points(points, c): `[map] AA rect` or `PANIC setpixel`
+colours are raw values of the colour type.
+"""
+from common import *
+
 LEVEL = 'proof'
-LEVEL_TEXT = 'TODO'
-LEVEL_NOTE = 'TODO'
+
+TYPES = [('BinaryColor', 2), ('Gray2', 4), ('Gray4', 16), ('Gray8', 256), ('Rgb332', 256), ('Rgb444', 4096),
+         ('Rgb555', 32768), ('Bgr555', 32768), ('Rgb565', 65536), ('Bgr565', 65536), ('Rgb888', 1 << 24), ('Bgr888', 1 << 24)]
+HEXU = '0123456789ABCDEF'
+CHARSET = {'BinaryColor': '.#', 'Gray2': '0123', 'Gray4': HEXU, 'Gray8': HEXU}
+RGBCH = 'KRGBYMCW'
+I32MAX = 2 ** 31 - 1
+I32MIN = -2 ** 31
+
+
+def charset(t):
+    return CHARSET.get(t, RGBCH)
+
+
+def _rgb_named(t):
+    lay = {'Rgb332': ((3, 3, 2), (5, 2, 0)), 'Rgb444': ((4, 4, 4), (8, 4, 0)), 'Rgb555': ((5, 5, 5), (10, 5, 0)),
+           'Bgr555': ((5, 5, 5), (0, 5, 10)), 'Rgb565': ((5, 6, 5), (11, 5, 0)), 'Bgr565': ((5, 6, 5), (0, 5, 11)),
+           'Rgb888': ((8, 8, 8), (16, 8, 0)), 'Bgr888': ((8, 8, 8), (0, 8, 16))}[t]
+    out = []
+    for r, g, b in [(0, 0, 0), (1, 0, 0), (0, 1, 0), (0, 0, 1), (1, 1, 0), (1, 0, 1), (0, 1, 1), (1, 1, 1)]:
+        v = 0
+        for k, on in enumerate((r, g, b)):
+            v |= (on * ((1 << lay[0][k]) - 1)) << lay[1][k]
+        out.append(v)
+    return out
+
+
+def color(rng, t, n):
+    """raw colour: half of the time one that has its own pattern character"""
+    if rng.random() < 0.5:
+        if t == 'Gray8':
+            return 17 * rng.randrange(16)
+        if t.startswith('Rgb') or t.startswith('Bgr'):
+            return rng.choice(_rgb_named(t))
+    k = rng.random()
+    if k < 0.15:
+        return rng.choice([0, n - 1, 1, n // 2])
+    return rng.randrange(n)
+
+
+def inpt(rng):
+    k = rng.random()
+    if k < 0.3:
+        return (rng.choice([0, 1, 62, 63]), rng.choice([0, 1, 62, 63]))
+    if k < 0.5:
+        return (rng.randrange(64), rng.choice([0, 1, 31, 62, 63]))
+    return (rng.randrange(64), rng.randrange(64))
+
+
+def outpt(rng):
+    k = rng.random()
+    if k < 0.35:   # just outside, one coordinate
+        v = rng.choice([-1, 64, -2, 65])
+        return (v, rng.randrange(64)) if rng.random() < 0.5 else (rng.randrange(64), v)
+    if k < 0.5:    # the cells an unchecked index computation would alias
+        x, y = inpt(rng)
+        return rng.choice([(x + 64, y - 1), (x - 64, y + 1), (x + 64 * 64, y - 64), (x, y + 64), (x + 64, y)])
+    if k < 0.65:
+        return (rng.choice([-1, 64]), rng.choice([-1, 64]))
+    if k < 0.85:
+        return rng.choice([(rng.randrange(-200, 300), rng.randrange(64, 300)), (rng.randrange(-200, 0), rng.randrange(-200, 300)),
+                           (rng.randrange(64, 300), rng.randrange(-200, 300)), (rng.randrange(-200, 300), rng.randrange(-200, 0))])
+    e = [I32MAX, I32MIN, I32MAX - 1, I32MIN + 1, 2 ** 16, -2 ** 16, 4096, 2 ** 26, -2 ** 26 + 5]
+    return rng.choice([(rng.choice(e), rng.randrange(-2, 66)), (rng.randrange(-2, 66), rng.choice(e)), (rng.choice(e), rng.choice(e))])
+
+
+def history(rng, t, n, ao, ab, nops, probes=True, fresh=None):
+    """token list. `fresh` = set of cells already drawn (to steer between new cells and repeats)."""
+    toks = []
+    drawn = set() if fresh is None else fresh
+    if rng.random() < 0.5:
+        toks += ['ao:%d' % ao, 'ab:%d' % ab]
+    else:
+        toks += ['ab:%d' % ab, 'ao:%d' % ao]
+    # how eager this history is to provoke a panic
+    p_out = rng.choice([0.0, 0.0, 0.1, 0.3]) if not ab else rng.choice([0.1, 0.3, 0.5])
+    p_rep = rng.choice([0.0, 0.0, 0.1, 0.3]) if not ao else rng.choice([0.2, 0.4, 0.6])
+
+    def point():
+        if rng.random() < p_out:
+            return outpt(rng)
+        if drawn and rng.random() < p_rep:
+            return rng.choice(sorted(drawn)) if len(drawn) < 50 else inpt(rng)
+        for _ in range(6):
+            p = inpt(rng)
+            if p not in drawn:
+                return p
+        return p
+
+    def origin():
+        """top-left of a fill area: inside +-2^29, where Rectangle::points() does not saturate (C16's range; outside it
+        a rectangle touching i32::MAX yields no points at all, which is not MockDisplay's business)"""
+        x, y = point()
+        lim = 2 ** 29
+        return (max(-lim, min(lim, x)), max(-lim, min(lim, y)))
+
+    for _ in range(nops):
+        k = rng.random()
+        if k < 0.35:
+            x, y = point()
+            toks.append('dp:%d:%d:%d' % (x, y, color(rng, t, n)))
+            drawn.add((x, y))
+        elif k < 0.55:
+            m = rng.choice([0, 1, 2, 3, 5, 8])
+            ps = [point() for _ in range(m)]
+            toks.append('di:' + ';'.join('%d:%d:%d' % (x, y, color(rng, t, n)) for x, y in ps))
+            drawn.update(ps)
+        elif k < 0.7:
+            x, y = origin()
+            w, h = rng.choice([0, 1, 1, 2, 3, 5, 9]), rng.choice([0, 1, 1, 2, 3, 4, 7])
+            if rng.random() < 0.08:
+                x, y, w, h = rng.choice([(-1, -1, 66, 66), (0, 0, 64, 64), (0, 0, 65, 64), (0, 63, 64, 2), (60, 60, 5, 5), (-2, 3, 4, 2)])
+            toks.append('fs:%d:%d:%d:%d:%d' % (x, y, w, h, color(rng, t, n)))
+            drawn.update((xx, yy) for xx in range(x, x + w) for yy in range(y, y + h))
+        elif k < 0.82:
+            x, y = origin()
+            w, h = rng.choice([0, 1, 2, 3, 5]), rng.choice([0, 1, 2, 3, 4])
+            m = max(0, w * h + rng.choice([0, 0, 0, -1, -2, 1, 3, -w * h]))
+            toks.append('fc:%d:%d:%d:%d:%s' % (x, y, w, h, ','.join(str(color(rng, t, n)) for _ in range(m))))
+            cells = [(xx, yy) for yy in range(y, y + h) for xx in range(x, x + w)][:m]
+            drawn.update(cells)
+        elif k < 0.85:
+            toks.append('cl:%d' % color(rng, t, n))
+            drawn.update((xx, yy) for xx in range(64) for yy in range(64))
+        elif k < 0.93:
+            x, y = inpt(rng) if rng.random() < 0.9 else outpt(rng)
+            if rng.random() < 0.4:
+                toks.append('sp:%d:%d:n' % (x, y))
+                drawn.discard((x, y))
+            else:
+                toks.append('sp:%d:%d:%d' % (x, y, color(rng, t, n)))
+                drawn.add((x, y))
+        elif k < 0.97:
+            toks.append(rng.choice(['ao:0', 'ao:1', 'ab:0', 'ab:1']))
+        else:
+            toks.append('aa')
+        if probes and rng.random() < 0.5:
+            j = rng.random()
+            if j < 0.4:
+                x, y = rng.choice(sorted(drawn)) if drawn and len(drawn) < 200 and rng.random() < 0.6 else outpt(rng) if rng.random() < 0.6 else inpt(rng)
+                if rng.random() < 0.35:   # the points whose unchecked index would be the same cell
+                    x, y = rng.choice([(x + 64, y - 1), (x - 64, y + 1), (x + 64, y), (x, y + 64), (x - 64, y), (x, y - 64)])
+                toks.append('gp:%d:%d' % (x, y))
+            elif j < 0.7:
+                toks.append('aa')
+            elif j < 0.85:
+                toks.append('dump')
+            elif j < 0.9:
+                toks.append('sw')
+            elif j < 0.95:
+                toks.append('mp:%d' % rng.choice([0, 1, n - 1, rng.randrange(n)]))
+            else:
+                toks.append('dbg')
+    if probes:
+        toks += ['dump', 'aa']
+        if rng.random() < 0.3:
+            toks.append('dbg')
+    return toks
+
+
+def pattern(rng, t, valid_only=False, upper_only=False):
+    cs = charset(t)
+    if not upper_only and t in ('Gray4', 'Gray8'):
+        cs = cs + 'abcdef'
+    k = rng.random()
+    w = rng.choice([0, 1, 2, 3, 5, 8, 13, 63, 64]) if k < 0.8 else rng.randrange(0, 65)
+    h = rng.choice([0, 1, 2, 3, 4, 7, 63, 64]) if rng.random() < 0.85 else rng.randrange(0, 65)
+    dens = rng.choice([0.1, 0.5, 0.9, 1.0])
+    rows = [''.join(rng.choice(cs) if rng.random() < dens else ' ' for _ in range(w)) for _ in range(h)]
+    if not valid_only:
+        j = rng.random()
+        if j < 0.05:
+            rows = [r + ' ' * (65 - len(r)) for r in rows] or [' ' * 65]
+        elif j < 0.1:
+            rows = rows + [' ' * w] * (65 - len(rows))
+        elif j < 0.17 and rows:
+            i = rng.randrange(len(rows))
+            rows[i] = rows[i] + rng.choice(cs) if rng.random() < 0.5 else rows[i][:-1]
+        elif j < 0.25 and rows and w > 0:
+            i = rng.randrange(len(rows))
+            bad = rng.choice('G4#.KRzZ?gxX!~@/9')
+            x = rng.randrange(w)
+            rows[i] = rows[i][:x] + bad + rows[i][x + 1:]
+    return ['r' + r.replace(' ', '_') for r in rows]
+
+
+def one_cell_pairs(rng, suite):
+    """pairs of displays that differ in exactly one cell (every corner, border cells, random cells), both orders, and equal pairs"""
+    cells = [(0, 0), (63, 0), (0, 63), (63, 63), (1, 0), (0, 1), (62, 63), (63, 62)] + [inpt(rng) for _ in range(24)]
+    for i, (x, y) in enumerate(cells):
+        t, n = TYPES[i % len(TYPES)]
+        c1 = color(rng, t, n)
+        c2 = (c1 + 1 + rng.randrange(n - 1)) % n
+        base = rng.choice([[], ['ao:1', 'cl:%d' % c1], ['fs:%d:%d:3:3:%d' % (max(0, x - 1), max(0, y - 1), c1)], ['ab:1', 'fs:60:60:9:9:%d' % c1]])
+        extras = [['sp:%d:%d:%d' % (x, y, c2)], ['sp:%d:%d:n' % (x, y)] if base else ['sp:%d:%d:%d' % (x, y, c1)]]
+        for extra in extras:
+            yield J(suite, t, *base, '/', *base, *extra)
+            yield J(suite, t, *base, *extra, '/', *base)
+            yield J(suite, t, *base, *extra, '/', *base, *extra)
+
+
+def point_lists(rng, suite, count):
+    for i in range(count):
+        t, n = TYPES[i % len(TYPES)]
+        m = rng.choice([0, 1, 2, 3, 8, 30])
+        pts = [inpt(rng) for _ in range(m)]
+        if pts and rng.random() < 0.3:
+            pts.append(rng.choice(pts))            # repeated points are fine for set_pixels
+        if rng.random() < 0.35:
+            pts.insert(rng.randrange(len(pts) + 1), outpt(rng))
+        yield J(suite, t, color(rng, t, n), *['%d:%d' % p for p in pts])
+
+
+def cases(tier, rng):
+    yield from point_lists(rng, 'mock_points', 150 if tier == 'quick' else 2000)
+    n_hist = 2200 if tier == 'quick' else 30000
+    for i in range(n_hist):
+        t, n = TYPES[i % len(TYPES)] if rng.random() < 0.5 else rng.choice(TYPES[:4] + TYPES[8:])
+        ao, ab = (i // 3) % 2, (i // 6) % 2
+        yield J('mock_hist', t, *history(rng, t, n, ao, ab, rng.choice([1, 2, 3, 5, 8, 13])))
+    n_eq = 500 if tier == 'quick' else 6000
+    for i in range(n_eq):
+        t, n = rng.choice(TYPES)
+        a = history(rng, t, n, 1, 1, rng.choice([0, 1, 2, 4, 7]), probes=False)
+        k = rng.random()
+        if k < 0.3:
+            b = list(a)
+        elif k < 0.6:   # one cell away from equal
+            b = list(a)
+            x, y = inpt(rng)
+            b.append(rng.choice(['sp:%d:%d:n' % (x, y), 'sp:%d:%d:%d' % (x, y, color(rng, t, n)), 'dp:%d:%d:%d' % (x, y, color(rng, t, n))]))
+            if rng.random() < 0.5:
+                a, b = b, a
+        else:
+            b = history(rng, t, n, 1, 1, rng.choice([0, 1, 2, 4]), probes=False)
+        yield J('mock_eqdiff', t, *a, '/', *b)
+    yield from one_cell_pairs(rng, 'mock_eqdiff')
+    n_pat = 600 if tier == 'quick' else 8000
+    for i in range(n_pat):
+        t, n = TYPES[i % len(TYPES)]
+        yield J('mock_pattern', t, *pattern(rng, t))
+    # every single character of every set, and every character code 33..126 alone
+    for t, n in TYPES:
+        for ch in range(33, 127):
+            if chr(ch) != '_':
+                yield J('mock_pattern', t, 'r' + chr(ch))
+
+
+def search(tier, rng):
+    yield from point_lists(rng, 'p_mock_points', 150 if tier == 'quick' else 2000)
+    n_hist = 1500 if tier == 'quick' else 20000
+    for i in range(n_hist):
+        t, n = TYPES[i % len(TYPES)] if rng.random() < 0.5 else rng.choice(TYPES[:4] + TYPES[8:])
+        ao, ab = (i // 3) % 2, (i // 6) % 2
+        yield J('p_mock_hist', t, *history(rng, t, n, ao, ab, rng.choice([1, 2, 3, 5, 8, 13])))
+    n_eq = 400 if tier == 'quick' else 5000
+    for i in range(n_eq):
+        t, n = rng.choice(TYPES)
+        a = history(rng, t, n, 1, 1, rng.choice([0, 1, 2, 4, 7]), probes=False)
+        k = rng.random()
+        if k < 0.3:
+            b = list(a)
+        elif k < 0.65:
+            b = list(a)
+            x, y = inpt(rng)
+            b.append(rng.choice(['sp:%d:%d:n' % (x, y), 'sp:%d:%d:%d' % (x, y, color(rng, t, n)), 'dp:%d:%d:%d' % (x, y, color(rng, t, n))]))
+            if rng.random() < 0.5:
+                a, b = b, a
+        else:
+            b = history(rng, t, n, 1, 1, rng.choice([0, 1, 2, 4]), probes=False)
+        yield J('p_mock_eq', t, *a, '/', *b)
+    yield from one_cell_pairs(rng, 'p_mock_eq')
+    n_pat = 500 if tier == 'quick' else 6000
+    for i in range(n_pat):
+        t, n = TYPES[i % len(TYPES)]
+        yield J('p_mock_pattern', t, *pattern(rng, t, valid_only=True, upper_only=True))
+    for t, n in TYPES:
+        for code in list(range(32, 127)) + [0, 9, 10, 127, 160, 178, 233, 1633, 65297, 65313, 120793, 0x10FFFF]:
+            yield J('p_mock_char', t, code)
+    for t, n in TYPES:
+        for ch in charset(t):
+            yield J('p_mock_pattern', t, 'r' + ch)
+            yield J('p_mock_pattern', t, 'r' + '_' * 63 + ch)
+
+
+def trivial(line, res):
+    return res in ('', 'none', '0', '[]', '[] 0 0 0 0')
+
+
+RULE = ('correspondence: (i) random operation histories on a new display (draw_pixel, draw_iter, default fill_solid / fill_contiguous / '
+        'clear, set_pixel, flag changes; 1-13 operations) under the four combinations of allow_overdraw / allow_out_of_bounds_drawing, '
+        'points inside, on the border, just outside, on the cells an unchecked index would alias, and at the i32 extremes, repeated points '
+        'with tunable probability; interleaved probes get_pixel / affected_area / swap_xy / Debug / full dump; panics caught and compared '
+        'by kind; for all 12 colour types; (ii) pairs of histories for == and diff (equal, one cell apart at every corner/border, unrelated); '
+        '(iii) patterns over every colour type\'s character set (upper and lower case hex), empty / 64-wide / 64-tall, plus too wide, '
+        'too tall, ragged and bad-character patterns, and every printable ASCII character alone for every type. '
+        'A case is non-trivial when the model result is not an empty dump/none; distinct = distinct case lines. '
+        'search (p_*): the same inputs judged on the implementation alone against an independent HashMap reference: expected panic kind, '
+        'get_pixel on a 70x70 window + far points after every operation, tight bounding box, ==/diff against the reference maps, '
+        'from_pattern against the documented character tables, Debug text against the documented format, and the round trip.')
+EXHAUSTIVE = {'quick': False, 'thorough': False}
+ASSUMPTIONS = ['histories are judged up to their first panic (a panicking test is a failed test); the state left behind by a caught panic '
+               'is compared by the search suite only',
+               'fill areas in generated cases have their top-left within +-2^29 (the range of C16 in which Rectangle::points() does not saturate)',
+               'pattern rows are ASCII in the correspondence (row.len() is a byte length; every character set is ASCII)']
+TRUSTED = ['modelled, not verified: core::char::to_digit / from_digit / to_ascii_uppercase on ASCII (evaluated by translate/gen_mock.py), '
+           'usize wrap of a negative index (modelled as the index panic it causes), the Rgb888 / named colour constants as computed by '
+           'gen_mock.py from rgb_color.rs',
+           'Debug: the header / "(n empty rows skipped)" text is modelled (debug_string) and compared by correspondence; the theorems speak '
+           'about the rows (debug_rows)']
+PARTIAL = []
+LEVEL_TEXT = ('Proof: 34 Coq theorems over the Gallina model of MockDisplay (coq/Model/Mockdisplay.v: the 4096-cell array with the index '
+              'arithmetic as written, both flags, every panic as a value). After ANY operation history that runs to its end get_pixel(p) is the '
+              'content given by the last event at p and None elsewhere and outside the display (induction over the history); drawing panics '
+              'exactly at the first pixel outside the display / drawn twice while the respective check is on, and with no other panic kind; '
+              'affected_area is zero when nothing is touched, contains every touched cell, is contained in every rectangle that does, and each of '
+              'its sides touches a touched cell; == holds exactly when all 64x64 cells agree; diff never panics, colours exactly the differing cells '
+              'GREEN/RED/BLUE and is empty exactly when ==; swap_xy mirrors, map applies its function cell by cell, from_points sets exactly the listed points; for all 12 ColorMapping tables (regenerated from color_mapping.rs on '
+              'every run) colour->char->colour and char->colour->char are identities on the documented sets, from_pattern puts the colour of the '
+              'character in row y, column x into cell (x,y), Debug prints a pattern back (padded, trailing blank rows dropped) and parsing '
+              'Debug output gives back the same display. Model and code are tied by running both on the same histories / patterns on every run.')
+LEVEL_NOTE = ('Trusted: Coq kernel, extraction (ExtrOcamlBasic), the OCaml/Rust drivers and the translator gen_mock.py (fails closed on any '
+              'unknown source shape); the hand-written model is validated by differential testing (panics caught and canonicalised), not proved '
+              'equal to the Rust code. assert_eq / assert_pattern message paths and EG_FANCY_PANIC output are not modelled.')
+CLAIMED = True
